@@ -95,6 +95,12 @@ CHECKS = {
         text="All 16 subsets of {input, dialog, retrieval, output} x rail verdict vectors x supplied bot message or not; judged: only selected categories run, input-only and supplied-bot-message reply tables, activated_rails lists exactly the rails that ran with stop on the blocker. Exhaustive within the bound (Colang 1.0 as the property says).",
         note="trusted: as C01; the undefined combination (output without dialog and without supplied message) is not generated",
         design_ref="6/C16"),
+    "C17": dict(
+        category="exploration", engine="Hostile",
+        technique="TLA+ input-space model (Hostile.tla: generation mode x abstract class of the LLM answer at every call position x turns) enumerated by TLC; classes concretised from a hostile corpus (+ seeded splices); every script driven through LLMRails.generate with a scripted LLM; outcome of every turn judged by TLC (turn completes with a well-formed message, template text delivered literally)",
+        text="Every assignment of 11 output classes (empty, blank, comment-only, wrong prefix, unbalanced quote, multi-line, Colang injection, template/variable syntax, very long, non-ASCII, well-formed) to the LLM call positions of a turn for the dialog, multi-step, single-call and general modes (Colang 1.0) and the 2.x llm library flows, plus sampled two-turn scripts. Positions x classes are exhaustive for single turns; strings inside a class are samples, hence exploration.",
+        note="trusted: pipeline harness (scripted LLM keyed by task), class concretisation; LLM provider exceptions out of scope",
+        design_ref="6/C17"),
     "C18": dict(
         category="model_checking", engine="Stream",
         technique="TLA+ spec (StreamIdeal judge + StreamImpl transcription) model-checked with TLC; every (config,text,chunking) replayed into StreamingHandler; observed outcome sets judged by TLC; step traces validated against StreamImpl",
